@@ -486,7 +486,10 @@ def transform_fn(text, spec):
         a, b = sh.ret_span
         rt = t[a:b]
         if not rt.strip().startswith('impl '):
-            edits.append((a, b, '(%s: %s)' % (retname, rt)))
+            # two insertions (not a replacement), so that aliases may still rewrite paths inside the return type
+            lead = len(rt) - len(rt.lstrip())
+            edits.append((a + lead, a + lead, '(%s: ' % retname))
+            edits.append((a + len(rt.rstrip()), a + len(rt.rstrip()), ')'))
     if sig.strip():
         edits.append((sh.bopen, sh.bopen, '\n' + sig.rstrip() + '\n'))
     entry = spec.get('entry')
